@@ -15,8 +15,7 @@ use soroban_sdk::{
     testutils::{Address as _, Ledger as _, MockAuth, MockAuthInvoke},
     Address, Bytes, BytesN, Env, IntoVal, String as SString, Symbol, Val,
 };
-use stellar_contract_utils::{pausable, upgradeable};
-use stellar_tokens::fungible::{allowlist::AllowList, blocklist::BlockList, capped, Base};
+use stellar_tokens::fungible::capped;
 use vh::*;
 
 // ---------------------------------------------------------------------------------------------
@@ -47,6 +46,11 @@ mod allow_lib {
         pub fn mint(e: &Env, to: Address, amount: i128) { Base::mint(e, &to, amount) }
         pub fn allow_user(e: &Env, user: Address) { AllowList::allow_user(e, &user) }
         pub fn disallow_user(e: &Env, user: Address) { AllowList::disallow_user(e, &user) }
+        // getters
+        pub fn allowed(e: &Env, account: Address) -> bool { AllowList::allowed(e, &account) }
+        pub fn total_supply(e: &Env) -> i128 { Base::total_supply(e) }
+        pub fn balance(e: &Env, account: Address) -> i128 { Base::balance(e, &account) }
+        pub fn allowance(e: &Env, owner: Address, spender: Address) -> i128 { Base::allowance(e, &owner, &spender) }
     }
 }
 mod block_lib {
@@ -64,6 +68,11 @@ mod block_lib {
         pub fn mint(e: &Env, to: Address, amount: i128) { Base::mint(e, &to, amount) }
         pub fn block_user(e: &Env, user: Address) { BlockList::block_user(e, &user) }
         pub fn unblock_user(e: &Env, user: Address) { BlockList::unblock_user(e, &user) }
+        // getters
+        pub fn blocked(e: &Env, account: Address) -> bool { BlockList::blocked(e, &account) }
+        pub fn total_supply(e: &Env) -> i128 { Base::total_supply(e) }
+        pub fn balance(e: &Env, account: Address) -> i128 { Base::balance(e, &account) }
+        pub fn allowance(e: &Env, owner: Address, spender: Address) -> i128 { Base::allowance(e, &owner, &spender) }
     }
 }
 // pausable library functions + both attribute macros of packages/macros/src/pausable.rs
@@ -81,11 +90,12 @@ mod paus_lib {
         pub fn guarded_np(e: &Env) {}
         #[when_paused]
         pub fn guarded_p(e: &Env) {}
+        pub fn paused(e: &Env) -> bool { pausable::paused(e) }
     }
 }
 mod cap_lib {
     use soroban_sdk::{contract, contractimpl, Address, Env, MuxedAddress};
-    use stellar_tokens::fungible::{capped::{check_cap, set_cap}, Base};
+    use stellar_tokens::fungible::{capped::{check_cap, query_cap, set_cap}, Base};
     #[contract]
     pub struct CapLib;
     #[contractimpl]
@@ -97,6 +107,11 @@ mod cap_lib {
         pub fn approve(e: &Env, owner: Address, spender: Address, amount: i128, live_until_ledger: u32) { Base::approve(e, &owner, &spender, amount, live_until_ledger) }
         pub fn burn(e: &Env, from: Address, amount: i128) { Base::burn(e, &from, amount) }
         pub fn burn_from(e: &Env, spender: Address, from: Address, amount: i128) { Base::burn_from(e, &spender, &from, amount) }
+        // getters
+        pub fn query_cap(e: &Env) -> i128 { query_cap(e) }
+        pub fn total_supply(e: &Env) -> i128 { Base::total_supply(e) }
+        pub fn balance(e: &Env, account: Address) -> i128 { Base::balance(e, &account) }
+        pub fn allowance(e: &Env, owner: Address, spender: Address) -> i128 { Base::allowance(e, &owner, &spender) }
     }
 }
 // the real derive macros of packages/macros/src/upgradeable.rs
@@ -115,6 +130,7 @@ mod upg_v1 {
     #[contractimpl]
     impl UpgV1 {
         pub fn __constructor(e: &Env, owner: Address) { e.storage().instance().set(&OWNER, &owner); }
+        pub fn migrating(e: &Env) -> bool { stellar_contract_utils::upgradeable::can_complete_migration(e) }
     }
     impl UpgradeableInternal for UpgV1 {
         fn _require_auth(e: &Env, operator: &Address) {
@@ -142,6 +158,8 @@ mod upg_v2 {
     #[contractimpl]
     impl UpgV2 {
         pub fn __constructor(e: &Env, owner: Address) { e.storage().instance().set(&OWNER, &owner); }
+        pub fn migrating(e: &Env) -> bool { stellar_contract_utils::upgradeable::can_complete_migration(e) }
+        pub fn data(e: &Env) -> Option<u32> { e.storage().instance().get::<_, Data>(&DATA_KEY).map(|d| d.num1) }
     }
     impl UpgradeableMigratableInternal for UpgV2 {
         type MigrationData = Data;
@@ -163,6 +181,7 @@ mod upg_lib {
         pub fn lib_enable(e: &Env) { upgradeable::enable_migration(e) }
         pub fn lib_complete(e: &Env) { upgradeable::complete_migration(e) }
         pub fn lib_ensure(e: &Env) { upgradeable::ensure_can_complete_migration(e) }
+        pub fn migrating(e: &Env) -> bool { upgradeable::can_complete_migration(e) }
     }
 }
 
@@ -254,14 +273,14 @@ impl Op {
 }
 
 #[derive(Clone, PartialEq, Debug)]
-struct Obs { supply: i128, bal: Vec<i128>, alw: Vec<Vec<i128>>, paused: bool, list: Vec<bool>, cap: Option<i128>, mig: bool, data: Option<u32> }
+struct Obs { supply: i128, bal: Vec<i128>, alw: Vec<Vec<i128>>, paused: bool, list: Vec<Option<bool>>, cap: Option<i128>, mig: bool, data: Option<u32>, trap: bool }
 impl Obs {
     fn coq(&self) -> String {
         let bals: Vec<String> = self.bal.iter().map(|v| z(*v)).collect();
         let rows: Vec<String> = self.alw.iter().map(|r| list(&r.iter().map(|v| z(*v)).collect::<Vec<_>>())).collect();
-        let ls: Vec<String> = self.list.iter().map(|v| b(*v)).collect();
-        format!("(mkObs {} {} {} {} {} {} {} {})", z(self.supply), list(&bals), list(&rows), b(self.paused), list(&ls),
-            opt(self.cap.map(z)), b(self.mig), opt(self.data.map(|d| d.to_string())))
+        let ls: Vec<String> = self.list.iter().map(|v| opt(v.map(b))).collect();
+        format!("(mkObs {} {} {} {} {} {} {} {} {})", z(self.supply), list(&bals), list(&rows), b(self.paused), list(&ls),
+            opt(self.cap.map(z)), b(self.mig), opt(self.data.map(|d| d.to_string())), b(self.trap))
     }
 }
 
@@ -270,6 +289,9 @@ struct Params { kind: Kind, na: usize, owner: usize, manager: usize, max_ttl: u3
 struct Sys {
     e: Env, p: Params, id: Address, a: Vec<Address>, hash: Option<BytesN<32>>,
     steps: Vec<String>, obs0: String, prev: Obs, dead: bool,
+    unread: Vec<bool>,      // accounts whose list status is not read by the observations
+    hist_list: Vec<bool>,   // harness-side replay of the successful list operations (labels only)
+    poisoned: bool,         // harness-level re-registration after an upgrade failed
 }
 
 const V2_WASM: &str = "/repo/examples/upgradeable/testdata/upgradeable_v2_example.wasm";
@@ -307,17 +329,21 @@ impl Sys {
             Ok(id) => id,
             Err(_) => {
                 let dead = Address::generate(&e);
-                return Sys { e, p, id: dead, a, hash: None, steps: std::vec![], dead: true,
-                    obs0: "(mkObs (-1) [] [] false [] None false None)".into(),
-                    prev: Obs { supply: -1, bal: std::vec![], alw: std::vec![], paused: false, list: std::vec![], cap: None, mig: false, data: None } };
+                let na = p.na;
+                return Sys { e, p, id: dead, a, hash: None, steps: std::vec![], dead: true, unread: std::vec![false; na], hist_list: std::vec![false; na], poisoned: false,
+                    obs0: "(mkObs (-1) [] [] false [] None false None true)".into(),
+                    prev: Obs { supply: -1, bal: std::vec![], alw: std::vec![], paused: false, list: std::vec![], cap: None, mig: false, data: None, trap: true } };
             }
         };
         let hash = if matches!(p.kind, Kind::UpgV1 | Kind::UpgV2) {
             let wasm = std::fs::read(V2_WASM).expect("v2 wasm of examples/upgradeable/testdata");
             Some(e.deployer().upload_contract_wasm(Bytes::from_slice(&e, &wasm)))
         } else { None };
-        let mut s = Sys { e, p, id, a, hash, steps: std::vec![], obs0: String::new(), dead: false,
-            prev: Obs { supply: 0, bal: std::vec![], alw: std::vec![], paused: false, list: std::vec![], cap: None, mig: false, data: None } };
+        let na = p.na;
+        let mut hist_list = std::vec![false; na];
+        if p.kind == Kind::AllowEx { hist_list[p.owner] = true; }
+        let mut s = Sys { e, p, id, a, hash, steps: std::vec![], obs0: String::new(), dead: false, unread: std::vec![false; na], hist_list, poisoned: false,
+            prev: Obs { supply: 0, bal: std::vec![], alw: std::vec![], paused: false, list: std::vec![], cap: None, mig: false, data: None, trap: false } };
         s.prev = s.observe();
         s.obs0 = s.prev.coq();
         s
@@ -325,41 +351,46 @@ impl Sys {
 
     fn now(&self) -> u32 { self.e.ledger().sequence() }
 
-    fn get<T: soroban_sdk::TryFromVal<Env, Val>>(&self, f: &str, args: soroban_sdk::Vec<Val>) -> T {
+    /// read one getter entry point; anything but Ok(Ok(v)) is recorded as a trap, never unwrapped
+    fn get<T: soroban_sdk::TryFromVal<Env, Val>>(&self, f: &str, args: soroban_sdk::Vec<Val>, trap: &mut bool, default: T) -> T {
+        self.e.mock_auths(&[]);
         match self.e.try_invoke_contract::<T, soroban_sdk::Error>(&self.id, &Symbol::new(&self.e, f), args) {
             Ok(Ok(v)) => v,
-            _ => panic!("getter {} failed", f),
+            _ => { *trap = true; default }
         }
     }
 
-    /// every getter the property talks about, for the whole universe.  The example contracts are
-    /// read through their own public getter entry points (total_supply, balance, allowance, paused,
-    /// allowed, blocked); what has no entry point (cap of the capped example, migration flag, the
-    /// harness contracts' state) through the library's query functions in the contract's context.
+    /// every getter the property talks about, for the whole universe, through public getter entry
+    /// points invoked with try_invoke_contract (the example contracts' own total_supply / balance /
+    /// allowance / paused / allowed / blocked; the harness contracts expose the library query
+    /// functions the same way).  A getter that traps sets `trap` (the monitor rejects it).  The only
+    /// value without an entry point, the cap of the capped example, is read from raw instance storage.
+    /// List entries of accounts in `unread` are NOT read (reading extends an entry's lifetime).
     fn observe(&self) -> Obs {
         let e = &self.e;
         let k = self.p.kind;
-        let real = matches!(k, Kind::Paus | Kind::AllowEx | Kind::BlockEx | Kind::CapEx);
-        let mut o = e.as_contract(&self.id, || {
-            let supply = Base::total_supply(e);
-            let bal: Vec<i128> = if real { std::vec![] } else { self.a.iter().map(|x| Base::balance(e, x)).collect() };
-            let alw: Vec<Vec<i128>> = if real { std::vec![] } else { self.a.iter().map(|o| self.a.iter().map(|s| Base::allowance(e, o, s)).collect()).collect() };
-            let paused = pausable::paused(e);
-            let list: Vec<bool> = self.a.iter().map(|x| if k.is_block() { BlockList::blocked(e, x) } else { AllowList::allowed(e, x) }).collect();
-            let cap = if e.storage().instance().has(&capped::CapStorageKey::Cap) { Some(capped::query_cap(e)) } else { None };
-            let mig = upgradeable::can_complete_migration(e);
-            let data = if k == Kind::UpgV2 { e.storage().instance().get::<_, upg_v2::Data>(&upg_v2::DATA_KEY).map(|d| d.num1) } else { None };
-            Obs { supply, bal, alw, paused, list, cap, mig, data }
-        });
-        if real {
-            o.supply = self.get::<i128>("total_supply", soroban_sdk::vec![e]);
-            o.bal = self.a.iter().map(|x| self.get::<i128>("balance", soroban_sdk::vec![e, x.to_val()])).collect();
-            o.alw = self.a.iter().map(|ow| self.a.iter().map(|sp| self.get::<i128>("allowance", soroban_sdk::vec![e, ow.to_val(), sp.to_val()])).collect()).collect();
-            if k == Kind::Paus { o.paused = self.get::<bool>("paused", soroban_sdk::vec![e]); }
-            if k == Kind::AllowEx { o.list = self.a.iter().map(|x| self.get::<bool>("allowed", soroban_sdk::vec![e, x.to_val()])).collect(); }
-            if k == Kind::BlockEx { o.list = self.a.iter().map(|x| self.get::<bool>("blocked", soroban_sdk::vec![e, x.to_val()])).collect(); }
+        let mut trap = self.poisoned;
+        let token = !(k.is_upg() || k == Kind::PausLib);
+        let (mut supply, mut bal, mut alw) = (0i128, std::vec![0i128; self.p.na], std::vec![std::vec![0i128; self.p.na]; self.p.na]);
+        if token {
+            supply = self.get::<i128>("total_supply", soroban_sdk::vec![e], &mut trap, 0);
+            bal = self.a.iter().map(|x| self.get::<i128>("balance", soroban_sdk::vec![e, x.to_val()], &mut trap, 0)).collect();
+            alw = self.a.iter().map(|ow| self.a.iter().map(|sp| self.get::<i128>("allowance", soroban_sdk::vec![e, ow.to_val(), sp.to_val()], &mut trap, 0)).collect()).collect();
         }
-        o
+        let paused = if matches!(k, Kind::Paus | Kind::PausLib) { self.get::<bool>("paused", soroban_sdk::vec![e], &mut trap, false) } else { false };
+        let list: Vec<Option<bool>> = (0..self.p.na).map(|i| {
+            if !k.is_list() { Some(false) }
+            else if self.unread[i] { None }
+            else { Some(self.get::<bool>(if k.is_block() { "blocked" } else { "allowed" }, soroban_sdk::vec![e, self.a[i].to_val()], &mut trap, false)) }
+        }).collect();
+        let cap = match k {
+            Kind::CapLib => { let mut t = false; let v = self.get::<i128>("query_cap", soroban_sdk::vec![e], &mut t, 0); if t { None } else { Some(v) } }   // failure = CapNotSet
+            Kind::CapEx => e.as_contract(&self.id, || e.storage().instance().get::<_, i128>(&capped::CapStorageKey::Cap)),
+            _ => None,
+        };
+        let mig = if k.is_upg() { self.get::<bool>("migrating", soroban_sdk::vec![e], &mut trap, false) } else { false };
+        let data = if k == Kind::UpgV2 { self.get::<Option<u32>>("data", soroban_sdk::vec![e], &mut trap, None) } else { None };
+        Obs { supply, bal, alw, paused, list, cap, mig, data, trap }
     }
 
     fn fn_and_args(&self, op: &Op) -> (&'static str, soroban_sdk::Vec<Val>) {
@@ -395,7 +426,7 @@ impl Sys {
     }
 
     /// execute one call with exactly the given authorisation set; true = Ok(Ok(_))
-    fn exec(&self, op: &Op, auths: &[usize]) -> bool {
+    fn exec(&mut self, op: &Op, auths: &[usize]) -> bool {
         if let Op::Advance(k) = op {
             self.e.ledger().with_mut(|l| l.sequence_number += *k);
             return true;
@@ -410,11 +441,12 @@ impl Sys {
             if let Op::Upgrade(..) = op {
                 // the address now runs the uploaded wasm; put the native (current source) code back,
                 // instance storage is kept (the constructor only rewrites OWNER with the same value)
-                match self.p.kind {
+                let r = std::panic::catch_unwind(std::panic::AssertUnwindSafe(|| match self.p.kind {
                     Kind::UpgV1 => { self.e.register_at(&self.id, upg_v1::UpgV1, (&self.a[self.p.owner],)); }
                     Kind::UpgV2 => { self.e.register_at(&self.id, upg_v2::UpgV2, (&self.a[self.p.owner],)); }
                     _ => {}
-                }
+                }));
+                if r.is_err() { self.poisoned = true; }
             }
         }
         ok
@@ -434,7 +466,7 @@ impl Sys {
             return if p.paused { format!("{}-paused", base) } else { base.to_string() };
         }
         if k.is_list() {
-            let closed = |i: usize| if k.is_block() { p.list[i] } else { !p.list[i] };
+            let closed = |i: usize| if k.is_block() { self.hist_list[i] } else { !self.hist_list[i] };
             let (vet, sp): (Vec<usize>, Option<usize>) = match op {
                 Op::Transfer(f, t, _) => (std::vec![*f, *t], None),
                 Op::TransferFrom(s, f, t, _) => (std::vec![*f, *t], Some(*s)),
@@ -474,6 +506,13 @@ impl Sys {
     fn step(&mut self, out: &mut Out, op: Op, auths: &[usize]) -> bool {
         if self.dead { return false; }   // deployment failed: the trace consists of the (wrong) initial observation only
         let ok = self.exec(&op, auths);
+        if ok {
+            match &op {
+                Op::AllowUser(u, _) | Op::BlockUser(u, _) => self.hist_list[*u] = true,
+                Op::DisallowUser(u, _) | Op::UnblockUser(u, _) => self.hist_list[*u] = false,
+                _ => {}
+            }
+        }
         let o = self.observe();
         let au: Vec<String> = auths.iter().map(|i| an(*i)).collect();
         let call = format!("({}, {})", op.coq(), list(&au));
@@ -496,7 +535,7 @@ impl Sys {
 fn params(kind: Kind, rng: &mut Rng, na: usize) -> Params {
     let owner = rng.below(na as u64) as usize;
     let manager = rng.below(na as u64) as usize;   // may alias the admin
-    let max_ttl = *rng.pick(&[60_000u32, 100_000, 200_000]);
+    let max_ttl = *rng.pick(&[60_000u32, 100_000, 200_000, 3_000_000]);
     let init_supply = match rng.below(6) { 0 => 0, 1 => 1, 2 => i128::MAX, 3 => i128::MAX - 5, _ => rng.range(10, 5000) as i128 };
     let cap = match rng.below(8) { 0 => 0, 1 => 1, 2 => i128::MAX, 3 => i128::MAX - 3, _ => rng.range(5, 3000) as i128 };
     Params { kind, na, owner, manager, max_ttl, init_supply, cap, now0: rng.range(0, 300) as u32, min_temp: if rng.chance(2, 3) { 1 } else { 16 } }
@@ -575,7 +614,7 @@ fn random_op(rng: &mut Rng, s: &Sys, budget_left: &mut u32) -> Op {
     let operator = |rng: &mut Rng| -> usize { if rng.chance(5, 6) { s.p.manager } else { rng.below(na as u64) as usize } };
     let boss = |rng: &mut Rng| -> usize { if rng.chance(5, 6) { s.p.owner } else { rng.below(na as u64) as usize } };
     let adv = |rng: &mut Rng, left: &mut u32| -> Op {
-        let n = match rng.below(6) { 0 => 0, 1 => 1, 2 => rng.range(2, 30) as u32, 3 => rng.range(100, 450) as u32, _ => rng.range(1, 5) as u32 };
+        let n = match rng.below(9) { 0 => 0, 1 => 1, 2 => rng.range(2, 30) as u32, 3 => rng.range(100, 450) as u32, 4 => 20, 5 => 100, 6 => 20_000, 7 => 17_281, _ => rng.range(1, 5) as u32 };
         let n = n.min(*left); *left -= n; Op::Advance(n)
     };
     if k == Kind::PausLib {
@@ -648,7 +687,7 @@ fn random_op(rng: &mut Rng, s: &Sys, budget_left: &mut u32) -> Op {
 
 fn random_trace(out: &mut Out, rng: &mut Rng, kind: Kind, na: usize, len: usize) {
     let mut s = Sys::deploy(params(kind, rng, na));
-    let mut left = 30_000u32;
+    let mut left = 45_000u32;   // stays below min_persistent_entry_ttl (instance storage is never extended by these contracts)
     // list kinds: start from a populated state most of the time (funds on several parties)
     if kind.is_list() && rng.chance(3, 4) {
         let (own, man) = (s.p.owner, s.p.manager);
@@ -662,6 +701,13 @@ fn random_trace(out: &mut Out, rng: &mut Rng, kind: Kind, na: usize, len: usize)
         let op = random_op(rng, &s, &mut left);
         let needed = needed_signer(kind, &op, s.p.owner);
         let au = auth_set(rng, needed, na);
+        if kind.is_list() {
+            // list entries: a status change is often followed by a stretch in which nobody reads that account
+            if let Op::AllowUser(u, _) | Op::DisallowUser(u, _) | Op::BlockUser(u, _) | Op::UnblockUser(u, _) = &op {
+                if rng.chance(1, 2) { s.unread[*u] = true; }
+            }
+            if rng.chance(1, 12) { let u = rng.below(na as u64) as usize; s.unread[u] = false; }
+        }
         s.step(out, op, &au);
     }
     s.finish(out, "random");
@@ -845,6 +891,103 @@ fn directed_upgrade(out: &mut Out) {
     s.finish(out, "directed-upgrade-lib");
 }
 
+/// gate changes persist until explicitly reverted: the ledger advances far (beyond the minimum
+/// temporary lifetime 16, beyond a day = 17280 ledgers) between the gate operation and the next
+/// gated call, and for list entries NOBODY reads the account's status in between.
+fn directed_persistence(out: &mut Out) {
+    let gaps: [u32; 5] = [1, 20, 100, 17_281, 20_000];
+    for &gap in &gaps {
+        for &(min_temp, max_ttl) in &[(1u32, 100_000u32), (16, 100_000), (16, 3_000_000)] {
+            // allow / block lists
+            for kind in [Kind::AllowEx, Kind::AllowLib, Kind::BlockEx, Kind::BlockLib] {
+                let (own, man, u, t, sp) = (0usize, 3usize, 1usize, 2usize, 3usize);
+                let mut s = Sys::deploy(Params { kind, na: 4, owner: own, manager: man, max_ttl, init_supply: 1000, cap: 0, now0: 5, min_temp });
+                let open = |s: &mut Sys, out: &mut Out, x: usize| { if kind.is_allow() { s.step(out, Op::AllowUser(x, man), &[man]); } else { s.step(out, Op::UnblockUser(x, man), &[man]); } };
+                let close = |s: &mut Sys, out: &mut Out, x: usize| { if kind.is_allow() { s.step(out, Op::DisallowUser(x, man), &[man]); } else { s.step(out, Op::BlockUser(x, man), &[man]); } };
+                // nobody ever reads u's or t's status from here on, except the gated calls themselves
+                s.unread[u] = true; s.unread[t] = true;
+                for x in 0..4 { if kind.is_allow() { open(&mut s, out, x); } }
+                for x in 1..4 { if kind.is_lib() { s.step(out, Op::Mint(x, 100), &[]); } else { s.step(out, Op::Transfer(own, x, 100), &[own]); } }
+                s.step(out, Op::Approve(u, sp, 50, 5 + 44_000), &[u]);
+                // open status must survive the gap (allow list: the allow; block list: nothing to survive)
+                s.step(out, Op::Advance(gap), &[]);
+                s.step(out, Op::Transfer(u, t, 3), &[u]);
+                // closed status must survive the gap
+                close(&mut s, out, u);
+                s.step(out, Op::Advance(gap), &[]);
+                s.step(out, Op::Transfer(u, t, 3), &[u]);
+                s.step(out, Op::TransferFrom(sp, u, t, 3), &[sp]);
+                s.step(out, Op::Burn(u, 3), &[u]);
+                s.step(out, Op::BurnFrom(sp, u, 3), &[sp]);
+                s.step(out, Op::Approve(u, sp, 40, 5 + 44_000), &[u]);
+                s.step(out, Op::Transfer(t, u, 3), &[t]);
+                // re-opened, and that survives too
+                open(&mut s, out, u);
+                s.step(out, Op::Advance(if gap > 1000 { 100 } else { gap }), &[]);
+                s.step(out, Op::Transfer(u, t, 3), &[u]);
+                s.step(out, Op::TransferFrom(sp, u, t, 3), &[sp]);
+                // only now the getters of u and t are read again
+                s.unread[u] = false; s.unread[t] = false;
+                s.step(out, Op::Advance(0), &[]);
+                s.finish(out, &format!("directed-persistence gap{} mintemp{} maxttl{}", gap, min_temp, max_ttl));
+            }
+            // pause flag (example and library level)
+            let mut s = Sys::deploy(Params { kind: Kind::Paus, na: 3, owner: 0, manager: 2, max_ttl, init_supply: 500, cap: 0, now0: 5, min_temp });
+            s.step(out, Op::Transfer(0, 1, 100), &[0]);
+            s.step(out, Op::Pause(0), &[0]);
+            s.step(out, Op::Advance(gap), &[]);
+            s.step(out, Op::Transfer(1, 2, 3), &[1]);
+            s.step(out, Op::Mint(1, 3), &[0]);
+            s.step(out, Op::Burn(1, 3), &[1]);
+            s.step(out, Op::Pause(0), &[0]);
+            s.step(out, Op::Unpause(0), &[0]);
+            s.step(out, Op::Advance(gap), &[]);
+            s.step(out, Op::Transfer(1, 2, 3), &[1]);
+            s.step(out, Op::Unpause(0), &[0]);
+            s.finish(out, &format!("directed-persistence gap{} mintemp{} maxttl{}", gap, min_temp, max_ttl));
+            let mut s = Sys::deploy(Params { kind: Kind::PausLib, na: 2, owner: 0, manager: 1, max_ttl, init_supply: 0, cap: 0, now0: 5, min_temp });
+            s.step(out, Op::Pause(0), &[]);
+            s.step(out, Op::Advance(gap), &[]);
+            s.step(out, Op::WhenNotPaused, &[]);
+            s.step(out, Op::WhenPaused, &[]);
+            s.step(out, Op::Pause(0), &[]);
+            s.step(out, Op::Unpause(0), &[]);
+            s.step(out, Op::Advance(gap), &[]);
+            s.step(out, Op::WhenNotPaused, &[]);
+            s.step(out, Op::WhenPaused, &[]);
+            s.finish(out, &format!("directed-persistence gap{} mintemp{} maxttl{}", gap, min_temp, max_ttl));
+            // cap
+            for kind in [Kind::CapEx, Kind::CapLib] {
+                let mut s = Sys::deploy(Params { kind, na: 3, owner: 0, manager: 1, max_ttl, init_supply: 0, cap: 100, now0: 5, min_temp });
+                if kind == Kind::CapLib { s.step(out, Op::SetCap(100), &[]); }
+                s.step(out, Op::Mint(1, 60), &[]);
+                s.step(out, Op::Advance(gap), &[]);
+                s.step(out, Op::Mint(1, 41), &[]);
+                s.step(out, Op::Mint(1, 40), &[]);
+                s.step(out, Op::Advance(gap), &[]);
+                s.step(out, Op::Mint(2, 1), &[]);
+                s.finish(out, &format!("directed-persistence gap{} mintemp{} maxttl{}", gap, min_temp, max_ttl));
+            }
+            // migration flag
+            let mut s = Sys::deploy(Params { kind: Kind::UpgV2, na: 2, owner: 0, manager: 1, max_ttl, init_supply: 0, cap: 0, now0: 5, min_temp });
+            s.step(out, Op::Upgrade(true, 0), &[0]);
+            s.step(out, Op::Advance(gap), &[]);
+            s.step(out, Op::Migrate(1, 0), &[0]);
+            s.step(out, Op::Advance(gap), &[]);
+            s.step(out, Op::Migrate(2, 0), &[0]);
+            s.finish(out, &format!("directed-persistence gap{} mintemp{} maxttl{}", gap, min_temp, max_ttl));
+            let mut s = Sys::deploy(Params { kind: Kind::UpgLib, na: 2, owner: 0, manager: 1, max_ttl, init_supply: 0, cap: 0, now0: 5, min_temp });
+            s.step(out, Op::LibEnable, &[]);
+            s.step(out, Op::Advance(gap), &[]);
+            s.step(out, Op::LibEnsure, &[]);
+            s.step(out, Op::LibComplete, &[]);
+            s.step(out, Op::Advance(gap), &[]);
+            s.step(out, Op::LibEnsure, &[]);
+            s.finish(out, &format!("directed-persistence gap{} mintemp{} maxttl{}", gap, min_temp, max_ttl));
+        }
+    }
+}
+
 /// all sequences of a given length over a small alphabet (small-scope exhaustive)
 fn exhaustive(out: &mut Out, thorough: bool) {
     // upgrade / migrate: {upgrade ok, upgrade unknown wasm, migrate authorised, migrate unauthorised}^n
@@ -916,6 +1059,7 @@ fn main() {
     directed_lists(&mut out, thorough);
     directed_cap(&mut out);
     directed_upgrade(&mut out);
+    directed_persistence(&mut out);
     exhaustive(&mut out, thorough);
 
     // random interleavings
